@@ -15,10 +15,18 @@ MANIFEST = {
             "iteration yields Abort and the iteration loop of every closure function stops there. Tied to the code by "
             "compiling generated VRL source and comparing Runtime::resolve's outcome, event, metadata and variables with the model.",
     "note": "Trusted: Coq kernel + vm_compute; hand model Model/Eval.v (mirrors the Rust after the fix: commits in "
-            "known_findings/C07.json; tie = correspondence); abort messages are valid UTF-8 in generated programs. No axioms.",
+            "known_findings/C07.json; tie = correspondence); the conversion of the message bytes to a string (from_utf8_lossy) is applied in the correspondence glue (Model/CodecUtf8.v). No axioms.",
     "design_ref": "DESIGN.md section 5 C07",
 }
-MSGS = ["boom", "", "m é", None]
+MSGS = [b"boom", b"", "m \u00e9".encode(), None, b"bad \xff byte", b"a\xc3(", b"\xe2\x82", b"\xf0\x9f\x98\x80 ok"]
+
+
+def valid_utf8(b):
+    try:
+        b.decode()
+        return True
+    except UnicodeDecodeError:
+        return False
 
 
 def gen_targeted(run, n):
@@ -27,7 +35,16 @@ def gen_targeted(run, n):
     for _ in range(n):
         b = cv.CtxBuilder(rng)
         msg = rng.choice(MSGS)
-        ab = ("abort", None if msg is None else (lit(js(msg)) if rng.random() < 0.7 else ev_field("msg")))
+        # the message is a literal, or a run-time string taken from the event (the only way to get bytes that are not
+        # valid UTF-8 into it; Abort::resolve converts the message with String::from_utf8_lossy)
+        if msg is None:
+            ab = ("abort", None)
+        elif valid_utf8(msg) and rng.random() < 0.6:
+            ab = ("abort", lit(js(msg.decode())))
+        elif rng.random() < 0.5:
+            ab = ("abort", ("call", "string", True, [ev_field("msg")]))
+        else:
+            ab = ("block", [("assign", ("tvar", "mv", []), ("call", "string", True, [ev_field("msg")])), ("abort", ("var", "mv"))])
         if rng.random() < 0.65:
             def hole(kind, ab=ab):
                 tail = ev_field("i") if kind == "inf" else cv.TAILS[kind]
@@ -48,10 +65,10 @@ def gen_targeted(run, n):
                 call = ("op", "err", ("block", [call, ("call", "int", False, [ev_field("s")])]), lit(ji(0)))
             prog = [mark("pre_top"), ("assign", ("tvar", "r", []), call), mark("post_top"), lit(ji(1))]
             names = ["closure:" + fn]
-        ev = cv.BASE_EVENT + ([("msg", js(msg))] if msg is not None else [("msg", js("x"))])
-        want = None if msg is None else (msg if ab[1] is None or ab[1][0] == "lit" else msg)
-        cases.append({"kind": "targeted", "ast": prog, "event": jo(ev), "meta": jo([]), "vars": ["r", "ok1", "err1", "tmpv", "cv", "k", "v"],
-                      "expect": {"msg": None if want is None else want.encode().hex()}, "meta_info": {"ctx": names}})
+        ev = cv.BASE_EVENT + [("msg", {"b": (msg if msg is not None else b"x").hex()})]
+        want = None if msg is None else msg.decode("utf-8", errors="replace").encode().hex()
+        cases.append({"kind": "targeted", "ast": prog, "event": jo(ev), "meta": jo([]), "vars": ["r", "ok1", "err1", "tmpv", "cv", "k", "v", "mv"],
+                      "expect": {"msg": want}, "meta_info": {"ctx": names + ["msg:" + ("none" if msg is None else "utf8" if valid_utf8(msg) else "non-utf8")]}})
     return cases
 
 
